@@ -380,6 +380,8 @@ impl GlobalScheduler {
         // 2) the `Simulation` object takes the lock, increments simulation time
         //    and runs the simulation step,
         // 3) this method takes the lock and schedules the now-outdated action.
+        #[cfg(nexosim_verif)]
+        crate::verif::point(40, 0, 0);
         let mut scheduler_queue = self.scheduler_queue.lock().unwrap();
 
         let now = self.time();
@@ -413,6 +415,8 @@ impl GlobalScheduler {
 
         // The scheduler queue must always be locked when reading the time (see
         // `schedule_from`).
+        #[cfg(nexosim_verif)]
+        crate::verif::point(40, 0, 0);
         let mut scheduler_queue = self.scheduler_queue.lock().unwrap();
         let now = self.time();
         let time = deadline.into_time(now);
@@ -450,6 +454,8 @@ impl GlobalScheduler {
 
         // The scheduler queue must always be locked when reading the time (see
         // `schedule_from`).
+        #[cfg(nexosim_verif)]
+        crate::verif::point(40, 0, 0);
         let mut scheduler_queue = self.scheduler_queue.lock().unwrap();
         let now = self.time();
         let time = deadline.into_time(now);
@@ -490,6 +496,8 @@ impl GlobalScheduler {
 
         // The scheduler queue must always be locked when reading the time (see
         // `schedule_from`).
+        #[cfg(nexosim_verif)]
+        crate::verif::point(40, 0, 0);
         let mut scheduler_queue = self.scheduler_queue.lock().unwrap();
         let now = self.time();
         let time = deadline.into_time(now);
@@ -532,6 +540,8 @@ impl GlobalScheduler {
 
         // The scheduler queue must always be locked when reading the time (see
         // `schedule_from`).
+        #[cfg(nexosim_verif)]
+        crate::verif::point(40, 0, 0);
         let mut scheduler_queue = self.scheduler_queue.lock().unwrap();
         let now = self.time();
         let time = deadline.into_time(now);
